@@ -27,6 +27,9 @@ Rows(ag, cur, m) == IF m = 0 \/ cur = <<>> THEN <<>>
 \* conformant truncations of a GETBULK response: any prefix holding at least one full repetition
 \* (full max-repetitions, fewer repetitions, a partial last row, early stop after an all-endOfMibView row)
 BulkPrefixLens(n, full) == IF Len(full) < n THEN {Len(full)} ELSE n..Len(full)
+\* RFC 3416 4.2.3 in full: the agent may remove any number of bindings from the end - a response may end inside its FIRST repetition
+\* (many requested columns, large values); at least one binding remains
+BulkPrefixLensAny(n, full) == IF Len(full) = 0 THEN {0} ELSE 1..Len(full)
 
 Conformant(db) == [faulty |-> FALSE, f |-> <<>>, set |-> db]
 FaultyAgent(F) == [faulty |-> TRUE, f |-> F, set |-> {}]
@@ -35,6 +38,6 @@ FaultyAgent(F) == [faulty |-> TRUE, f |-> F, set |-> {}]
 IsGetNextAnswer(ag, oids, got) == got = Row(ag, oids)
 IsBulkAnswer(ag, oids, m, got) ==
   LET full == Rows(ag, oids, m) IN
-  /\ Len(got) \in BulkPrefixLens(Len(oids), full)
+  /\ Len(got) \in BulkPrefixLensAny(Len(oids), full)
   /\ got = SubSeq(full, 1, Len(got))
 ====
